@@ -293,6 +293,9 @@ pub fn rw_chain(r: &R, e: &Expr) -> Option<String> {
             }
         }
     }
+    if let Some(ps) = spec.opts.get("pstart") {
+        pre.insert(0, format!("proof {{ {} }}", ps));
+    }
     let tc = calls.last().unwrap();
     let auto_inv = format!("{i} <= {n}", i = i, n = n);
     let inv_user = spec.inv.trim_end().to_string();
@@ -430,7 +433,11 @@ pub fn rw_chain(r: &R, e: &Expr) -> Option<String> {
             } else {
                 s.push_str(&format!("        if ({}) {{ {}.push({}); }}\n", guards.join(") && ("), res, item));
             }
-            s.push_str(&format!("        {} = {} + 1;\n    }}\n    {}\n}})", i, i, res));
+            let fin = match spec.opts.get("into") {
+                Some(f) => format!("{}({})", f, res),
+                None => res.clone(),
+            };
+            s.push_str(&format!("        {} = {} + 1;\n    }}\n    {}\n}})", i, i, fin));
         }
         other => {
             r.err(format!("unsupported terminal `.{}()`", other));
